@@ -10,7 +10,7 @@ from core import cfg_text
 CTOR_OPS = {"default", "with_capacity", "new", "init", "from_vec", "from_box"}
 INSERT_OPS = {"insert_row", "push_row", "insert_col", "push_col"}
 REMOVE_OPS = {"remove_row", "pop_row", "remove_col", "pop_col"}
-DRAIN_OPS = {"d_next", "d_next_back", "d_len", "d_drop", "d_nth", "d_nth_back", "d_count", "d_last", "d_collect", "d_rcollect", "d_fold", "d_rfold"}
+DRAIN_OPS = {"d_next", "d_next_back", "d_len", "d_drop", "d_nth", "d_nth_back", "d_count", "d_last", "d_collect", "d_rcollect", "d_fold", "d_rfold", "d_for_each", "d_find"}
 
 HIST_OP_PROPS = {
     "clear": set(), "swap_dimensions": set(), "reserve": set(), "reserve_exact": set(), "shrink_to_fit": set(),
@@ -271,7 +271,7 @@ def p_C07(ctx):
 BIG_MAX, BIG_HALF, BIG_HALF1, BIG_P32, BIG_WRAP = 1000001, 1000002, 1000003, 1000004, 1000005
 ACC_READ = {"idx_coord", "idx_row", "col_idx", "get_unchecked", "get_unchecked_row", "row", "col", "size", "debug", "as_view"}
 ACC_WRITE = {"idxm_coord", "idxm_row", "colm_idx", "colm_idxm", "get_unchecked_mut", "get_unchecked_row_mut"}
-ACC_OP_PROPS = {"col": {"C02", "C09"}, "size": {"C03"}, "debug": {"C03"}, "as_view": {"C03"}, "view": {"C03"}, "view_mut": {"C03"},
+ACC_OP_PROPS = {"col": {"C02", "C09"}, "size": {"C03"}, "debug": {"C03"}, "as_view": {"C02", "C03"}, "view": {"C03"}, "view_mut": {"C03"},
                 "fill": {"C13"}, "swap": {"C13"}, "swap_rows": {"C13"}, "swap_cols": {"C13"}, "row_pair_swap": {"C13"},
                 "write_rows_mut": {"C08"}, "write_cells_mut": {"C10"}, "write_col_mut": {"C09"},
                 "copy_from_slice": {"C14"}, "clone_from_slice": {"C14"}, "copy_from_toodee": {"C14"},
@@ -1028,9 +1028,12 @@ def rerun(prop, path):
         logp = path + ".rerun.events.ndjson"
         cmd = [c if not c.endswith(".events.ndjson") else logp for c in cmd]
         cmd[0] = core.binpath("drive", rec.get("profile", "dev"))      # always the binary built from the CURRENT tree
-        r = subprocess.run(cmd, stdout=subprocess.PIPE, stderr=subprocess.PIPE, text=True)
+        try:
+            r = subprocess.run(cmd, stdout=subprocess.PIPE, stderr=subprocess.PIPE, text=True, timeout=3600)
+        except subprocess.TimeoutExpired:
+            r = subprocess.CompletedProcess(cmd, "hang", "", "")
         if r.returncode != 0:
-            print("the driver process died again (rc=%s)" % r.returncode)
+            print("the driver process died or hung again (rc=%s)" % r.returncode)
             print("VIOLATION property=%s replay=%s" % (prop, path))
             return 1
         ok, rejected, _ = core.validate_trace(os.path.dirname(path), "rerun", module, logp, invariants=invs)
